@@ -938,7 +938,25 @@ fn tp_block_for(req: ThirdPartyRequest, seed: u64) -> Result<biscuit_auth::Third
     req.create_block(&ext.private(), BlockBuilder::new().fact("tp(1)").unwrap())
 }
 
+/// A third-party block answered for *another* token (and its signer's key): offered to every token the
+/// sweep meets, open or sealed -- the call must return (an error), never panic.
+fn foreign_tp_block() -> Option<(biscuit_auth::ThirdPartyBlock, PublicKey)> {
+    let mut rng = Rng::new(4242);
+    let root = KeyPair::new_with_rng(Algorithm::Ed25519, &mut rng);
+    let kp = KeyPair::new_with_rng(Algorithm::Ed25519, &mut rng);
+    let ext = KeyPair::new_with_rng(Algorithm::Ed25519, &mut rng);
+    let base = BiscuitBuilder::new().fact("other(1)").ok()?.build_with_key_pair(&root, biscuit_auth::datalog::SymbolTable::default(), &kp).ok()?;
+    let req = base.third_party_request().ok()?;
+    let blk = req.create_block(&ext.private(), BlockBuilder::new().fact("tp(2)").ok()?).ok()?;
+    Some((blk, ext.public()))
+}
+
 pub fn sweep_biscuit(p: &str, b: &Biscuit, r: &mut Rec, deep: bool) {
+    if let Some((fb, fk)) = foreign_tp_block() {
+        let mut rng = Rng::new(78);
+        let kp3 = KeyPair::new_with_rng(Algorithm::Ed25519, &mut rng);
+        r.op(&format!("{}.append_third_party(foreign block)", p), || b.append_third_party_with_keypair(fk, fb.clone(), kp3));
+    }
     r.opv(&format!("{}.print", p), || b.print());
     r.opv(&format!("{}.to_string", p), || b.to_string());
     let count = r.opv(&format!("{}.block_count", p), || b.block_count()).unwrap_or(1);
@@ -995,6 +1013,13 @@ pub fn sweep_biscuit(p: &str, b: &Biscuit, r: &mut Rec, deep: bool) {
             let mut rng = Rng::new(5);
             let ext = KeyPair::new_with_rng(Algorithm::Ed25519, &mut rng);
             let kp2 = KeyPair::new_with_rng(Algorithm::Ed25519, &mut rng);
+            // the same answer offered to the sealed form of the token (request made before sealing)
+            if let Ok(sealed) = b.seal() {
+                let mut rng2 = Rng::new(6);
+                let kp4 = KeyPair::new_with_rng(Algorithm::Ed25519, &mut rng2);
+                let tb2 = tb.clone();
+                r.op(&format!("{}.seal.append_third_party(answer made before sealing)", p), || sealed.append_third_party_with_keypair(ext.public(), tb2, kp4));
+            }
             if let Some(b2) = r.op(&format!("{}.append_third_party", p), || b.append_third_party_with_keypair(ext.public(), tb, kp2)) {
                 sweep_biscuit(&format!("{}.append_third_party", p), &b2, r, false);
             }
@@ -1024,6 +1049,13 @@ pub fn sweep_unverified(p: &str, u: &UnverifiedBiscuit, r: &mut Rec, deep: bool,
     }
     r.op(&format!("{}.to_vec", p), || u.to_vec());
     r.op(&format!("{}.to_base64", p), || u.to_base64());
+    if let Some((fb, _)) = foreign_tp_block() {
+        if let Ok(fbytes) = fb.serialize() {
+            let mut rng = Rng::new(79);
+            let kp3 = KeyPair::new_with_rng(Algorithm::Ed25519, &mut rng);
+            r.op(&format!("{}.append_third_party(foreign block)", p), || u.append_third_party_with_keypair(&fbytes, kp3));
+        }
+    }
     if !deep {
         return;
     }
@@ -1041,6 +1073,10 @@ pub fn sweep_unverified(p: &str, u: &UnverifiedBiscuit, r: &mut Rec, deep: bool,
         r.op(&format!("{}.third_party_request.serialize", p), || req.serialize());
         if let Some(tb) = r.op(&format!("{}.third_party_request.create_block", p), || tp_block_for(req, 6).and_then(|b| b.serialize())) {
             let kp2 = KeyPair::new_with_rng(Algorithm::Ed25519, &mut rng);
+            if let Ok(sealed) = u.seal() {
+                let kp4 = KeyPair::new_with_rng(Algorithm::Ed25519, &mut rng);
+                r.op(&format!("{}.seal.append_third_party(answer made before sealing)", p), || sealed.append_third_party_with_keypair(&tb, kp4));
+            }
             if let Some(u2) = r.op(&format!("{}.append_third_party", p), || u.append_third_party_with_keypair(&tb, kp2)) {
                 sweep_unverified(&format!("{}.append_third_party", p), &u2, r, false, None);
             }
